@@ -109,6 +109,65 @@ def explore(ctx, depth):
                     ctx.fail({'text': text, 'clause': 'ekern -> kern -> ekern'}, "converting the converter's ekern output to kern and back does not return the original ekern",
                              impl=back, expected=got)
                 cli_jobs.append((text, got['ok']))
+        # a long file: more than 64 KiB (and, thorough, more than 128 KiB), with a two-byte character lying across byte offsets 65536 / 131072
+        # (a reader that decodes the file block by block must not lose it) - load(file) must equal loads(text)
+        for target in ((65536,) if depth == 'quick' else (65536, 131072, 8192, 4096)):
+            body = ''.join('4c\t%s\n' % ('ñandú' + 'é' * (i % 7)) for i in range(target // 8))
+            for pad in range(0, 6):
+                big = '!! ' + 'x' * (40 + pad) + '\n**kern\t**text\n*clefG2\t*\n=1\t=1\n' + body + '*-\t*-\n'
+                enc = big.encode('utf-8')
+                if len(enc) > target + 2 and (enc[target] & 0xC0) == 0x80:     # a continuation byte at the boundary: the character straddles it
+                    break
+            else:
+                continue
+            path = os.path.join(tmp, 'big%d.krn' % target)
+            with open(path, 'w', encoding='utf-8', newline='') as f:
+                f.write(big)
+            def big_file():
+                d, errs = kp.load(path)
+                return {'errors': [[e.line, e.encoding] for e in errs], 'lyrics': [t.encoding for t in d.get_all_tokens(filter_by_categories=[TC.LYRICS])], 'export': kp.dumps(d)}
+            def big_text():
+                d, errs = kp.loads(big)
+                return {'errors': [[e.line, e.encoding] for e in errs], 'lyrics': [t.encoding for t in d.get_all_tokens(filter_by_categories=[TC.LYRICS])], 'export': kp.dumps(d)}
+            a, b = call(big_file), call(big_text)
+            ctx.seen({'clause': 'load = loads (long file)', 'bytes': len(enc), 'boundary': target}, True)
+            if a != b:
+                bad = next((i for i, (x, y) in enumerate(zip(a.get('ok', {}).get('lyrics', []), b.get('ok', {}).get('lyrics', []))) if x != y), None)
+                ctx.fail({'clause': 'load = loads (long file)', 'bytes': len(enc), 'boundary': target, 'text_head': big[:120], 'first_differing_lyric': bad},
+                         'loading a long file differs from loading its text', impl=str(a)[:300] if bad is None else a['ok']['lyrics'][bad], expected=str(b)[:300] if bad is None else b['ok']['lyrics'][bad])
+        # conversion in place: output path = input path (function and command line)
+        for k, case in enumerate(cases[:3 if depth == 'quick' else 10]):
+            if case.doc is None:
+                continue
+            src = os.path.join(tmp, 'inplace%d.krn' % k)
+            with open(src, 'w', encoding='utf-8', newline='') as f:
+                f.write(case.text)
+            api = call(lambda: kp.dumps(kp.loads(case.text)[0], spine_types=['**kern'], include=BEKERN_CATEGORIES, encoding=Encoding.eKern))
+            if 'ok' not in api:
+                continue
+            from kernpy.core.exporter import get_kern_from_ekern
+            def inplace():
+                kern_to_ekern(src, src)
+                a1 = open(src, newline='').read()
+                ekern_to_krn(src, src)
+                a2 = open(src, newline='').read()
+                return [a1, a2]
+            got = call(inplace)
+            want = {'ok': [api['ok'], get_kern_from_ekern(api['ok'])]}
+            ctx.seen({'text': case.text, 'clause': 'conversion in place'}, True)
+            if got != want:
+                ctx.fail({'text': case.text, 'clause': 'conversion in place (output path = input path)'},
+                         'converting a file onto itself does not leave what the API produces', impl=got, expected=want['ok'])
+                continue
+            cli = os.path.join(tmp, 'inplace_cli%d.ekrn' % k)
+            with open(cli, 'w', encoding='utf-8', newline='') as f:
+                f.write(api['ok'])
+            subprocess.run([sys.executable, '-m', 'kernpy', '--ekern2kern', '--input_path', cli, '--output_path', cli], env=env, cwd=tmp,
+                           stdout=subprocess.PIPE, stderr=subprocess.PIPE, text=True, timeout=300)
+            gotc = open(cli, newline='').read() if os.path.exists(cli) else None
+            if gotc != get_kern_from_ekern(api['ok']):
+                ctx.fail({'text': case.text, 'clause': 'CLI conversion in place (--output_path = --input_path)'},
+                         'python -m kernpy --ekern2kern onto the input file does not leave what the API produces', impl=gotc, expected=get_kern_from_ekern(api['ok']))
         # real subprocesses
         njobs = 4 if depth == 'quick' else 12
         jobs = cli_jobs[:njobs]
